@@ -293,6 +293,6 @@ impl LinkMon {
 }
 
 pub fn run(cfg: &RunCfg) -> Report {
-    let cases = cfg.cases(100_000, 2_000_000);
+    let cases = cfg.cases(100_000, 6_000_000);
     run_cases(cfg, 0, cases, Duration::from_secs(3600), |_c, rng, rep| run_history(rng, rep))
 }
